@@ -86,18 +86,99 @@ def make_impl(case):
             self.verif_log.append((position, area, list(self.refinement.get_objects()[n0:])))
             return r
 
+        # use-site observation: the coarsening value an area carries at the moment coarsen_grid reads it (the error
+        # estimates change it temporarily), and what evaluate_operation_area_complete_flexibel was asked for / did
+        def coarsen_grid(self, levelvector, area):
+            c = int(area.coarseningValue)
+            u = self.verif_use
+            u["n"] += 1
+            if u["min"] is None or c < u["min"][0]:
+                u["min"] = (c, [float(x) for x in area.start], [float(x) for x in area.end], [int(x) for x in levelvector])
+            if self.verif_flex is not None:
+                self.verif_flex["used"].add(c)
+                sm = int(sum(int(x) for x in levelvector))
+                if self.verif_flex["maxsum"] is None or sm > self.verif_flex["maxsum"]:
+                    self.verif_flex["maxsum"] = sm
+            return super().coarsen_grid(levelvector, area)
+
+        def evaluate_operation_area_complete_flexibel(self, area, coarsening, *args, **kwargs):
+            rec = {"req": int(coarsening), "before": int(area.coarseningValue), "lmax": int(self.lmax[0]), "used": set(),
+                   "maxsum": None, "box": ([float(x) for x in area.start], [float(x) for x in area.end])}
+            prev = self.verif_flex
+            self.verif_flex = rec
+            try:
+                return super().evaluate_operation_area_complete_flexibel(area, coarsening, *args, **kwargs)
+            finally:
+                self.verif_flex = prev
+                rec["after"] = int(area.coarseningValue)
+                if len(self.verif_flexlog) < 4000:
+                    self.verif_flexlog.append(rec)
+
     dim = case["dim"]
     a, b = typed_bounds(case)
     f = TableF(str(case.get("salt", 0)))
-    grid = es.TrapezoidalGrid(a, b, boundary=True)
+    grid = es.TrapezoidalGrid(a, b, boundary=bool(case.get("boundary", True)))
     op = es.Integration(f, grid=grid, dim=dim, reference_solution=None)
     sa = Hooked(a, b, number_of_refinements_before_extend=case["nrbe"], version=case["version"],
                 automatic_extend_split=bool(case["auto"]), split_single_dim=bool(case["single"]), operation=op)
     sa.verif_log = []
+    reset_use(sa)
     with contextlib.redirect_stdout(io.StringIO()):
         sa.performSpatiallyAdaptiv(case["lmin"], case["lmax"], Scripted(), tol=-1, max_evaluations=1, do_plot=False,
                                    print_output=False)
     return sa, f
+
+
+def reset_use(sa):
+    sa.verif_use = {"n": 0, "min": None}
+    sa.verif_flex = None
+    sa.verif_flexlog = []
+
+
+def all_nodes(sa):
+    """every area object reachable from the root cell or the container (inner nodes included)"""
+    seen, out, stack = set(), [], [sa.root_cell] + list(sa.refinement.get_objects())
+    while stack:
+        n = stack.pop()
+        if id(n) in seen:
+            continue
+        seen.add(id(n))
+        out.append(n)
+        stack.extend(n.children)
+    return out
+
+
+def oracle_use(ctx, drv, sa, case, tags, cmp, where):
+    """clause 'coarsening values never become negative' at the moment the values are USED: every coarseningValue read by
+    coarsen_grid since the last call of this function (evaluation, error estimates of the refinement step), every node
+    of the tree now; and the model of evaluate_operation_area_complete_flexibel (value carried / scheme level used)"""
+    ok = True
+    u = sa.verif_use
+    ctx.count("coarsen_grid_reads", u["n"])
+    bad = []
+    if u["min"] is not None and u["min"][0] < 0:
+        bad.append(("coarsen_grid-read-negative-coarseningValue", u["min"][0], u["min"][1], u["min"][2], "component", u["min"][3]))
+    for n in all_nodes(sa):
+        if n.coarseningValue < 0:
+            bad.append(("tree-node-negative-coarseningValue", int(n.coarseningValue), [float(x) for x in n.start], [float(x) for x in n.end]))
+            break
+    if bad:
+        ok = not ctx.violation("coarsening-used", dict(tags, where=where), case, {"failed": [list(map(str, b)) for b in bad[:4]]})
+    # model: value carried during the estimate and level of the scheme used, for every distinct (lmax, requested)
+    seen = set()
+    for rec in sa.verif_flexlog:
+        ctx.count("flex_calls")
+        if rec["req"] < 0:
+            ctx.count("flex_calls_beyond_lmax")
+        for cu in sorted(rec["used"]):
+            lm = (rec["maxsum"] - (case["dim"] - 1) * case["lmin"]) if rec["maxsum"] is not None else None
+            key = (rec["lmax"], rec["req"], cu, lm)
+            if key in seen:
+                continue
+            seen.add(key)
+            cmp("flexible-estimate", "%d %s" % (cu, lm), drv.ask("flex %d %d" % (rec["lmax"], rec["req"])))
+    reset_use(sa)
+    return ok
 
 
 def fr(x):
@@ -313,7 +394,10 @@ def oracle_local(ctx, sa, f, case, tags, passes, assigned_ok=True):
                            "wrong_points": [(list(map(float, p)), float(v)) for p, v in sorted(wrong)[:4]], "asserted": asserted})) and ok
         # nodal reproduction at the points of this area that the implementation assigns to it
         gp = sorted(sums.keys())
-        if gp:
+        # (grids without boundary points: __call__ cannot evaluate at points next to the excluded boundary -- the
+        # interpolation mesh does not reach it, scipy raises; that is the boundary-off reading of C02/C08, not a C07
+        # clause -- so the reproduction part is checked on grids with boundary points only)
+        if gp and case.get("boundary", True):
             m = impl_assign(sa, gp)
             mine = [p for p in gp if len(m.get(tuple(float(x) for x in p), [])) == 1 and m[tuple(float(x) for x in p)][0] is area]
             if mine:
@@ -432,7 +516,7 @@ def gen_round(ctx, sa, case):
 def run_history(ctx, drv, case, rounds=None, nrounds=0, thorough=False):
     """rounds=None: draw them from the rng (they depend on the implementation's current number of areas)"""
     tags = {"version": case["version"], "lmin": case["lmin"], "dim": case["dim"], "auto": int(case["auto"]),
-            "single": int(case["single"]), "btype": case.get("btype", "float")}
+            "single": int(case["single"]), "btype": case.get("btype", "float"), "boundary": int(bool(case.get("boundary", True)))}
     case = dict(case, rounds=[])
     ok = True
 
@@ -448,7 +532,9 @@ def run_history(ctx, drv, case, rounds=None, nrounds=0, thorough=False):
         ctx.violation("exception", dict(tags, where="init"), dict(case), {"exception": repr(e)[:300]})
         return False, case
     cmp("init", "ok", drv.ask(init_line(case)))
+    ok = oracle_use(ctx, drv, sa, dict(case), tags, cmp, "init") and ok
     ok = compare_state(ctx, drv, sa, f, dict(case), tags, cmp, thorough) and ok
+    reset_use(sa)
     i = 0
     while ok:
         if rounds is None:
@@ -470,9 +556,11 @@ def run_history(ctx, drv, case, rounds=None, nrounds=0, thorough=False):
                               {"exception": repr(e)[:300]})
                 ok = False
                 break
+            ok = oracle_use(ctx, drv, sa, dict(case, rounds=list(case["rounds"])), tags, cmp, "continue") and ok
             ctx.count("op_continue")
             ctx.count("op_continue_lmax_grown_by_%d" % min(3, int(sa.lmax[0]) - case["lmax"]))
             ok = compare_state(ctx, drv, sa, f, dict(case, rounds=list(case["rounds"])), tags, cmp, thorough) and ok
+            reset_use(sa)
             continue
         try:
             log = run_round(sa, rnd, case)
@@ -481,6 +569,7 @@ def run_history(ctx, drv, case, rounds=None, nrounds=0, thorough=False):
             # no state to compare -- counted, the history ends here
             kind = type(e).__name__
             ctx.count("impl_exception_in_round_" + kind)
+            ok = oracle_use(ctx, drv, sa, dict(case, rounds=list(case["rounds"])), tags, cmp, "refine-aborted") and ok
             import traceback
             lst = ctx.extra.setdefault("impl_exceptions_error_estimators", [])
             if len(lst) < 3:
@@ -500,7 +589,9 @@ def run_history(ctx, drv, case, rounds=None, nrounds=0, thorough=False):
             cmp("refine-result", impl, drv.ask("refine %d %d %s" % (p, 1 if kind == "ext" else 0,
                                                                  ",".join(map(str, dims)) if dims else "-")))
         cmp("endround", "ok", drv.ask("endround"))
+        ok = oracle_use(ctx, drv, sa, dict(case, rounds=list(case["rounds"])), tags, cmp, "refine") and ok
         ok = compare_state(ctx, drv, sa, f, dict(case, rounds=list(case["rounds"])), tags, cmp, thorough) and ok
+        reset_use(sa)
     return ok, case
 
 
@@ -566,7 +657,7 @@ def gen_case(ctx, thorough, k):
     btype = r.choice(BTYPES[1:]) if integral and r.random() < 0.5 else "float"
     case = {"kind": "history", "dim": dim, "lmin": lmin, "lmax": lmax, "nrbe": r.choice([0, 1, 1, 2]), "version": version,
             "auto": auto, "single": single, "script": script, "a": [d[0] for d in doms], "b": [d[1] for d in doms],
-            "salt": r.randrange(1000), "btype": btype}
+            "salt": r.randrange(1000), "btype": btype, "boundary": r.random() >= 0.25}
     nr = r.randint(1, 6 if dim == 2 else 4) if not thorough else r.randint(2, 9 if dim == 2 else 5)
     return case, nr
 
@@ -621,6 +712,15 @@ def run(ctx):
             ok, case = run_history(ctx, drv, case, None, 2, thorough)
             ctx.count("btype_stream_single%d_%s" % (int(single), bt))
             ctx.case(case, nontrivial=len(case["rounds"]) > 0)
+    # every run: automatic extend/split decision made by the implementation on grids WITHOUT boundary points (the error
+    # estimates then request coarsening values below 0, "beyond lmax"), versions 0-2, with the use-site observation
+    for ver in (0, 1, 2):
+        for (lmin_, lmax_) in ((1, 2), (1, 3)):
+            case = {"kind": "history", "dim": 2, "lmin": lmin_, "lmax": lmax_, "nrbe": 1, "version": ver, "auto": True, "single": False,
+                    "script": False, "a": [0.0, 0.0], "b": [1.0, 1.0], "salt": 7, "btype": "float", "boundary": False}
+            ok, case = run_history(ctx, drv, case, None, 4, thorough)
+            ctx.count("auto_noboundary_stream_v%d" % ver)
+            ctx.case(case, nontrivial=len(case["rounds"]) > 0)
     # every run: finished runs in which lmax has grown are continued (performSpatiallyAdaptiv(..., refinement_container=...))
     # and refined further until lmax has grown three more times, for every coarsening version
     for ver in (0, 1, 2):
@@ -644,6 +744,7 @@ def run(ctx):
         ctx.count("mode_auto%d_single%d_script%d" % (int(case["auto"]), int(case["single"]), int(case["script"])))
         ctx.count("rounds", len(case["rounds"]))
         ctx.count("btype_" + case.get("btype", "float"))
+        ctx.count("boundary_%d" % int(bool(case.get("boundary", True))))
         ctx.case(case, nontrivial=len(case["rounds"]) > 0, sample=case if k < 2 else None)
         # a disagreement alone is not a failing input: keep searching (the oracle runs on every state anyway)
         if len(ctx.violations) >= ctx.max_reports or len(ctx.corr_breaks) >= 40:
